@@ -82,10 +82,11 @@ class ForceMatrix:
         position_index = 0
         for vid in self.tj_vertices:
             row_x, row_y = self.get_row(vid)
-            non_zero_x = np.count_nonzero(row_x)
-            non_zero_y = np.count_nonzero(row_y)
-            at_least_three = non_zero_x >= 3 or non_zero_y >= 3
-            less_than_four = non_zero_x < 4 and non_zero_y < 4
+            # count the interfaces that received a coefficient pair, not the
+            # non-zero numbers: an axis-aligned tangent has a vanishing component
+            non_zero = np.count_nonzero((row_x != 0) | (row_y != 0))
+            at_least_three = non_zero >= 3
+            less_than_four = non_zero < 4
             less_than_four_condition = less_than_four if self.metadata.get("ignore_four", False) else True
 
             if at_least_three and less_than_four_condition:
